@@ -39,6 +39,12 @@ C02_Order(reqs, resps) ==
 C02_LegalType(reqs, resps) ==
   \A i \in 1..Len(resps) : i <= Len(reqs) => resps[i].typ \in Legal(reqs[i].typ)
 
+(* the i-th response answers the i-th request: where the harness knows what data a READ must return
+   (sig = first byte of the region read, -1 = unknown), a DATA reply carries exactly that *)
+C02_OwnPayload(reqs, resps) ==
+  \A i \in 1..Len(resps) :
+     (i <= Len(reqs) /\ reqs[i].sig >= 0 /\ resps[i].typ = "DATA") => resps[i].sig = reqs[i].sig
+
 (* at quiescence (the harness waited for the server to become idle, or Serve returned after a
    clean EOF with the write side still open): nothing is missing *)
 C02_AllAnswered(reqs, resps) == Len(resps) = Len(reqs)
